@@ -370,12 +370,59 @@ pub fn case_nonfinite(bytes: &[u8], _s: &[u8], ctx: &mut Ctx) -> Result<(), Fail
     Ok(())
 }
 
+/// Summaries under arbitrary quantile configurations (the documented contract of a quantile is "clamped to
+/// [0, 1]"): whatever list `set_quantiles` was given — negatives, values above one, infinities, NaN, repeats —
+/// every quantile line of a summary with samples in its window lies between the smallest and largest sample.
+pub fn case_quantile_cfg(bytes: &[u8], _s: &[u8], ctx: &mut Ctx) -> Result<(), Fail> {
+    const QS: [f64; 12] = [0.0, 0.5, 0.9, 0.999, 1.0, -0.0, -1.0, 2.0, f64::INFINITY, f64::NEG_INFINITY, f64::NAN, 1e-300];
+    const VS: [f64; 6] = [1.0, 2.5, 7.0, 100.0, 1.0e9, 3.0];
+    let mut src = Source::new(bytes);
+    let qs: Vec<f64> = (0..1 + src.below(5)).map(|_| *src.pick(&QS)).collect();
+    let samples: Vec<f64> = (0..1 + src.below(20)).map(|_| *src.pick(&VS)).collect();
+    let render_twice = src.bool();
+    ctx.case(&(&qs, &samples, render_twice));
+    if qs.iter().any(|q| !(0.0..=1.0).contains(q)) {
+        ctx.nontrivial("quantile-outside-the-unit-interval-or-nan");
+    }
+    let rec = PrometheusBuilder::new().set_quantiles(&qs).map_err(|e| Fail::new("builder-rejects-quantiles", format!("{:?}: {}", qs, e)))?.build_recorder();
+    let handle = rec.handle();
+    static QMETA: Metadata<'static> = Metadata::new("c15q", Level::INFO, None);
+    let h = rec.register_histogram(&Key::from_name("lat"), &QMETA);
+    for v in &samples {
+        h.record(*v);
+    }
+    let (lo, hi) = samples.iter().fold((f64::INFINITY, f64::NEG_INFINITY), |(l, h), v| (l.min(*v), h.max(*v)));
+    for round in 0..1 + render_twice as usize {
+        let text = handle.render();
+        let lines = parse_prometheus(&text).map_err(|e| Fail::new("exposition-not-well-formed", format!("{} ; output {:?}", e, text)))?;
+        let fams = prom_families(&lines).map_err(|e| Fail::new("family-structure-violated", format!("{} ; output {:?}", e, text)))?;
+        let f = fams.iter().find(|f| f.name == "lat").ok_or_else(|| Fail::new("series-missing", format!("{:?}", text)))?;
+        ensure!(f.mtype == "summary", "wrong-family-type", "no buckets configured but {:?} rendered as {}", f.name, f.mtype);
+        let mut qlines = 0;
+        for (n, labels, v, vt) in &f.samples {
+            if let Some((_, q)) = labels.iter().find(|(k, _)| k == "quantile") {
+                qlines += 1;
+                ensure!(n == "lat", "wrong-family-shape", "quantile label on {:?}", n);
+                let tol = 2e-4 * hi.abs() + 1e-9;
+                ensure!(*v >= lo - tol && *v <= hi + tol, "quantile-outside-window-range", "render {}: quantile {:?} = {} but every sample in the window lies in [{}, {}] (quantiles configured: {:?})", round, q, vt, lo, hi, qs);
+                let qv: f64 = q.parse().unwrap_or(f64::NAN);
+                ensure!((0.0..=1.0).contains(&qv), "quantile-label-outside-unit-interval", "a quantile is documented to be clamped to [0, 1]; configured {:?}, rendered label {:?}", qs, q);
+            }
+        }
+        ensure!(qlines >= 1, "wrong-family-shape", "summary without quantile lines ; output {:?}", text);
+        let count = f.samples.iter().find(|s| s.0 == "lat_count").map(|s| s.2);
+        ensure!(count == Some(samples.len() as f64), "histogram-count-wrong", "lat_count {:?}, {} samples recorded", count, samples.len());
+    }
+    Ok(())
+}
+
 pub fn run(cfg: &RunCfg, replay: Option<&str>) -> i32 {
     let mut pr = PropRun::new("C15", cfg, RULE);
     pr.register("histogram-storage", &case_hist);
     pr.register("matchers", &case_match);
     pr.register("rolling-summary", &case_roll);
     pr.register("summary-nonfinite", &case_nonfinite);
+    pr.register("quantile-configs", &case_quantile_cfg);
     if let Some(f) = replay {
         return pr.replay(f);
     }
@@ -389,6 +436,7 @@ pub fn run(cfg: &RunCfg, replay: Option<&str>) -> i32 {
         ("matchers", &case_match, 150_000, 5_000_000, 64),
         ("rolling-summary", &case_roll, 200_000, 6_000_000, 160),
         ("summary-nonfinite", &case_nonfinite, 50_000, 1_000_000, 200),
+        ("quantile-configs", &case_quantile_cfg, 100_000, 3_000_000, 64),
     ] {
         let r = run_lane(&c, "C15", &Lane { name, cases: c.cases(q, t), max_len: len, sched_len: 0, workers: 0, f });
         pr.push(r);
